@@ -62,9 +62,6 @@ Proof.
   assert (lockh s = Some t) by (apply T2; auto). congruence.
 Qed.
 
-Lemma U_nonneg s : 0 <= U s.
-Proof. unfold U. lia. Qed.
-
 (* ---- frame: a step that only moves the program counter of t ---- *)
 Definition same3 (s s' : gst) : Prop :=
   lst s' = lst s /\ rootq s' = rootq s /\ tokh s' = tokh s /\ holders s' = holders s /\ rq s' = rq s /\ lockh s' = lockh s /\
